@@ -34,7 +34,9 @@ def strict_vc(d):
     jw = d.get("jwt") or {}
     return {
         "fmt": d.get("fmt"), "id": d.get("id"), "types": sorted(set(d.get("types") or [])), "issuer": d.get("issuer"),
-        "issued": d.get("issued"), "expires": d.get("expires"), "subjects": d.get("subjects"), "statuses": d.get("statuses"),
+        "issued": d.get("issued"), "expires": d.get("expires"), "subjects": d.get("subjects"),
+        # JSON-LD: the status entries are a set (order and duplicates are not members of the document)
+        "statuses": None if d.get("statuses") is None else sorted({json.dumps(e, sort_keys=True) for e in d.get("statuses")}),
         "proof": {k: pr.get(k) for k in PROOF_OPTS}, "nProofs": d.get("nProofs"),
         "jwt": {k: jw.get(k) for k in ("kid", "alg", "nbf", "exp", "iat")},
     }
